@@ -45,6 +45,9 @@ type jobTrack struct {
 	createAttempts map[string]int   // pod name -> number of create calls by the job controller
 	firstDeletionSeenAt *time.Time
 	userKillAt *time.Time
+	recordedSucceeded map[string]bool // task name -> some status version recorded Result=Succeeded
+	resultSeq   uint64 // API sequence at which the current finished result was first recorded
+	userEditSeq uint64 // API sequence of the last user edit (killTimestamp change / deletion request)
 }
 
 type podCreate struct {
@@ -104,7 +107,7 @@ func (t *tracker) onEvent(ev *APIEvent) {
 		t.jobByRV[j.ResourceVersion] = j
 		jt := t.jobsByUID[string(j.UID)]
 		if jt == nil {
-			jt = &jobTrack{uid: string(j.UID), key: ev.Key, first: j, everInStatus: map[string]bool{}, pods: map[string]*podCreate{}, createAttempts: map[string]int{}}
+			jt = &jobTrack{uid: string(j.UID), key: ev.Key, first: j, everInStatus: map[string]bool{}, pods: map[string]*podCreate{}, createAttempts: map[string]int{}, recordedSucceeded: map[string]bool{}}
 			t.jobsByUID[jt.uid] = jt
 		}
 		if ev.Type == "DELETED" {
@@ -122,6 +125,21 @@ func (t *tracker) onEvent(ev *APIEvent) {
 		}
 		for _, ref := range j.Status.Tasks {
 			jt.everInStatus[ref.Name] = true
+			if ref.Status.Result == execution.TaskSucceeded {
+				jt.recordedSucceeded[ref.Name] = true
+			}
+		}
+		if old, ok := ev.Old.(*execution.Job); ok && old != nil {
+			killChanged := (old.Spec.KillTimestamp == nil) != (j.Spec.KillTimestamp == nil) ||
+				(old.Spec.KillTimestamp != nil && j.Spec.KillTimestamp != nil && !old.Spec.KillTimestamp.Equal(j.Spec.KillTimestamp))
+			delRequested := old.DeletionTimestamp == nil && j.DeletionTimestamp != nil
+			if killChanged || delRequested {
+				jt.userEditSeq = ev.Seq
+			}
+			of, nf := old.Status.Condition.Finished, j.Status.Condition.Finished
+			if nf != nil && (of == nil || of.Result != nf.Result) {
+				jt.resultSeq = ev.Seq
+			}
 		}
 	case ResPods:
 		t.podByRV[accessor(ev.Obj).GetResourceVersion()] = ev.Obj.(*corev1.Pod)
